@@ -24,7 +24,7 @@ PROPS["C10"] = {
              "distinct = FNV-64 of the serialised case"),
     "assumptions": ["math/big is correct", "verifref field/curve constants are computed from their definitions and self-tested"],
     "units": [{
-        "pkg": "curve", "configs": ALL4,
+        "pkg": "curve", "configs": ALL4Q,
         "tests": {
             "TestC10Decode": T(20000, 1000000),
             "TestC10Ownership": T(1500, 40000),
